@@ -29,6 +29,11 @@ struct Res {
     fonts: bwt::TfmFontRepo,
     hyph: boxworks_hyphenate::Hyphenator,
     font_space: FontSpace,
+    /// a second font (cmss8) as font 1, for the two-font families
+    tfm2: tfm::File,
+    lkp2: tfm::ligkern::CompiledProgram,
+    font_space2: FontSpace,
+    fonts2: bwt::TfmFontRepo,
     repo: String,
 }
 
@@ -43,7 +48,16 @@ fn load_res() -> Result<Res, String> {
     let hyph = boxworks_hyphenate::Hyphenator::plain_tex_en_us(lkp.clone());
     let fs = |n| tfm_file.named_param_scaled(n).map(|s| s.0 as i64).ok_or_else(|| "cmr10 lacks a font parameter".to_string());
     let font_space = FontSpace { space: Spec::new(fs(tfm::NamedParameter::Space)?, fs(tfm::NamedParameter::Stretch)?, fs(tfm::NamedParameter::Shrink)?), extra: fs(tfm::NamedParameter::ExtraSpace)? };
-    Ok(Res { tfm: tfm_file, lkp, fonts, hyph, font_space, repo })
+    let path2 = format!("{repo}/crates/tfm/corpus/computer-modern/cmss8.tfm");
+    let bytes2 = std::fs::read(&path2).map_err(|e| format!("cannot read {path2}: {e}"))?;
+    let mut tfm2 = tfm::File::deserialize(&bytes2).0.map_err(|e| format!("cmss8.tfm does not parse: {e:?}"))?;
+    let lkp2 = tfm::ligkern::CompiledProgram::compile_from_tfm_file(&mut tfm2).0;
+    let fs2 = |n| tfm2.named_param_scaled(n).map(|s| s.0 as i64).ok_or_else(|| "cmss8 lacks a font parameter".to_string());
+    let font_space2 = FontSpace { space: Spec::new(fs2(tfm::NamedParameter::Space)?, fs2(tfm::NamedParameter::Stretch)?, fs2(tfm::NamedParameter::Shrink)?), extra: fs2(tfm::NamedParameter::ExtraSpace)? };
+    let mut fonts2: bwt::TfmFontRepo = Default::default();
+    fonts2.register_font(0, tfm_file.clone());
+    fonts2.register_font(1, tfm2.clone());
+    Ok(Res { tfm: tfm_file, lkp, fonts, hyph, font_space, tfm2, lkp2, font_space2, fonts2, repo })
 }
 
 /// The toy font of the hand-built lists (design-probes/kp_probe.rs).
@@ -166,27 +180,63 @@ fn sf_code_alt(c: u32) -> i64 {
     }
 }
 
+/// Third table: the values on both sides of every comparison in §1034/§1043-1044 (0 < code, code <= 1000,
+/// code > 1000, factor >= 2000) on word-final characters of the vocabulary, and the largest sfcode.
+fn sf_code_edge(c: u32) -> i64 {
+    match c {
+        0x61 => 1,     // a
+        0x49 => 1001,  // I
+        0x6c => 1999,  // l  (ffl)
+        0x79 => 2001,  // y  (x-y)
+        0x74 => 32767, // t  (difficult)
+        0x56 => 2000,  // V  (AV: capped, A is 999)
+        _ => para::plain_sf_code(c),
+    }
+}
+/// Fourth table, for the words with characters above 127: codes at the last two entries of the
+/// 256-entry table. Characters from 256 on have no entry (TeX has no such characters): 1000.
+fn sf_code_wide(c: u32) -> i64 {
+    match c {
+        0xe9 => 2000, // é
+        0xff => 999,  // ÿ
+        _ => para::plain_sf_code(c),
+    }
+}
+fn code_fn(codes: u8) -> &'static dyn Fn(u32) -> i64 {
+    match codes {
+        1 => &sf_code_alt,
+        2 => &sf_code_edge,
+        3 => &sf_code_wide,
+        _ => &para::plain_sf_code,
+    }
+}
+
 #[derive(Clone, Copy)]
 struct SkipSet {
     name: &'static str,
     ss: Spec,
     xs: Spec,
-    alt_codes: bool,
+    codes: u8,
 }
 fn skip_sets() -> Vec<SkipSet> {
     let p = PT as i64;
     let ss1 = Spec::new(5 * p, 2 * p, p);
     let xs1 = Spec::new(9 * p, p, 0);
     vec![
-        SkipSet { name: "default", ss: Spec::ZERO, xs: Spec::ZERO, alt_codes: false },
-        SkipSet { name: "spaceskip=5pt plus 2pt minus 1pt", ss: ss1, xs: Spec::ZERO, alt_codes: false },
-        SkipSet { name: "xspaceskip=9pt plus 1pt", ss: Spec::ZERO, xs: xs1, alt_codes: false },
-        SkipSet { name: "spaceskip and xspaceskip", ss: ss1, xs: xs1, alt_codes: false },
-        SkipSet { name: "spaceskip=4pt plus 1fil minus 2pt", ss: Spec { w: 4 * p, st: p, st_o: 1, sh: 2 * p, sh_o: 0 }, xs: Spec::ZERO, alt_codes: false },
-        SkipSet { name: "spaceskip=0pt plus 3pt", ss: Spec::new(0, 3 * p, 0), xs: Spec::ZERO, alt_codes: false },
-        SkipSet { name: "spaceskip=3pt plus -1pt minus -0.5pt", ss: Spec::new(3 * p, -p, -p / 2), xs: Spec::ZERO, alt_codes: false },
-        SkipSet { name: "alt sfcodes", ss: Spec::ZERO, xs: Spec::ZERO, alt_codes: true },
-        SkipSet { name: "alt sfcodes, spaceskip and xspaceskip", ss: ss1, xs: xs1, alt_codes: true },
+        SkipSet { name: "default", ss: Spec::ZERO, xs: Spec::ZERO, codes: 0 },
+        SkipSet { name: "spaceskip=5pt plus 2pt minus 1pt", ss: ss1, xs: Spec::ZERO, codes: 0 },
+        SkipSet { name: "xspaceskip=9pt plus 1pt", ss: Spec::ZERO, xs: xs1, codes: 0 },
+        SkipSet { name: "spaceskip and xspaceskip", ss: ss1, xs: xs1, codes: 0 },
+        SkipSet { name: "spaceskip=4pt plus 1fil minus 2pt", ss: Spec { w: 4 * p, st: p, st_o: 1, sh: 2 * p, sh_o: 0 }, xs: Spec::ZERO, codes: 0 },
+        SkipSet { name: "spaceskip=0pt plus 3pt", ss: Spec::new(0, 3 * p, 0), xs: Spec::ZERO, codes: 0 },
+        SkipSet { name: "spaceskip=3pt plus -1pt minus -0.5pt", ss: Spec::new(3 * p, -p, -p / 2), xs: Spec::ZERO, codes: 0 },
+        SkipSet { name: "alt sfcodes", ss: Spec::ZERO, xs: Spec::ZERO, codes: 1 },
+        SkipSet { name: "alt sfcodes, spaceskip and xspaceskip", ss: ss1, xs: xs1, codes: 1 },
+        SkipSet { name: "edge sfcodes (1, 1001, 1999, 2000, 2001, 32767)", ss: Spec::ZERO, xs: Spec::ZERO, codes: 2 },
+        SkipSet { name: "edge sfcodes, spaceskip and xspaceskip", ss: ss1, xs: xs1, codes: 2 },
+        SkipSet { name: "spaceskip=0pt plus 0fil minus 0fill (is zero_glue), xspaceskip=0pt plus 0filll", ss: Spec { w: 0, st: 0, st_o: 1, sh: 0, sh_o: 2 }, xs: Spec { w: 0, st: 0, st_o: 3, sh: 0, sh_o: 0 }, codes: 0 },
+        SkipSet { name: "wide sfcodes (233, 255)", ss: Spec::ZERO, xs: Spec::ZERO, codes: 3 },
+        SkipSet { name: "wide sfcodes, spaceskip and xspaceskip", ss: ss1, xs: xs1, codes: 3 },
     ]
 }
 
@@ -194,9 +244,10 @@ fn text_params(s: &SkipSet) -> bwt::Params {
     let mut p = bwt::Params::plain_tex_defaults();
     p.space_skip = glue(&s.ss);
     p.extra_space_skip = glue(&s.xs);
-    if s.alt_codes {
+    if s.codes != 0 {
+        let f = code_fn(s.codes);
         for c in 0..256u32 {
-            p.space_factor_codes.0[c as usize] = sf_code_alt(c) as i32;
+            p.space_factor_codes.0[c as usize] = f(c) as i32;
         }
     }
     p
@@ -217,22 +268,80 @@ fn glues_of(l: &[Item]) -> Vec<Spec> {
     l.iter().filter_map(|i| if let Item::Glue(g) = i { Some(*g) } else { None }).collect()
 }
 
+/// Words with the font that is current for each (two-font route: add_word / add_space / activate_font
+/// driven directly, as the repository's knuthplass tests do).
+fn make_hlist_fonts(res: &Res, s: &SkipSet, words: &[&str], fonts: &[u32]) -> Vec<H> {
+    let mut tp = bwt::TextPreprocessorImpl::new(text_params(s));
+    tp.register_font(0, &res.tfm, res.lkp.clone());
+    tp.register_font(1, &res.tfm2, res.lkp2.clone());
+    tp.new_paragraph();
+    let mut list = vec![];
+    for (i, w) in words.iter().enumerate() {
+        tp.activate_font(fonts[i]);
+        tp.add_word(w, &mut list);
+        if i + 1 < words.len() {
+            tp.add_space(&mut list);
+        }
+    }
+    list
+}
+
 fn check_hlist(idx: u64, res: &Res, text: &str, skip_idx: usize, acc: &mut Acc) {
     let sets = skip_sets();
     let s = &sets[skip_idx];
-    acc.eval();
     let case = || json!({"kind": "hlist", "text": text, "skips": skip_idx, "skips_name": s.name});
-    let list = match catch(|| make_hlist(res, s, text)) {
+    let lenient = text.chars().any(|c| c as u32 >= 128);
+    check_hlist_core(idx, res, &|| make_hlist(res, s, text), para::split_words(text), &[], s, &case, lenient, acc);
+}
+
+fn check_hlist_fonts(idx: u64, res: &Res, words: &[&str], fonts: &[u32], skip_idx: usize, acc: &mut Acc) {
+    let sets = skip_sets();
+    let s = &sets[skip_idx];
+    let case = || json!({"kind": "hlist2", "words": words, "fonts": fonts, "skips": skip_idx, "skips_name": s.name});
+    let w = para::Words { leading: false, words: words.iter().map(|w| w.to_string()).collect(), trailing: false };
+    check_hlist_core(idx, res, &|| make_hlist_fonts(res, s, words, fonts), w, fonts, s, &case, false, acc);
+}
+
+/// `word_fonts`: font current for each word (empty = font 0 throughout). `lenient`: the text has
+/// characters that are not in the font (outside the property's quantifier "text over the font's
+/// characters"; TeX drops such characters): the list may spell the words with or without them.
+#[allow(clippy::too_many_arguments)]
+fn check_hlist_core(idx: u64, res: &Res, build: &dyn Fn() -> Vec<H>, words: para::Words, word_fonts: &[u32], s: &SkipSet, case: &dyn Fn() -> Value, lenient: bool, acc: &mut Acc) {
+    acc.eval();
+    let list = match catch(build) {
         Ok(l) => l,
         Err(p) => {
             acc.class("FAIL panic in add_text");
-            acc.fail(idx, case(), "a horizontal list", p.describe(), "add_text panicked");
+            acc.fail(idx, case(), "a horizontal list", p.describe(), "add_text / add_word / add_space panicked");
             return;
         }
     };
-    let items = conv_list(&list, &res.fonts);
-    let words = para::split_words(text);
-    let code: &dyn Fn(u32) -> i64 = if s.alt_codes { &sf_code_alt } else { &para::plain_sf_code };
+    let items = conv_list(&list, &res.fonts2);
+    let code: &dyn Fn(u32) -> i64 = code_fn(s.codes);
+    let font_of_word = |i: usize| -> FontSpace {
+        if word_fonts.get(i).copied().unwrap_or(0) == 1 {
+            res.font_space2
+        } else {
+            res.font_space
+        }
+    };
+    if word_fonts.iter().any(|f| *f == 1) && words.words.len() >= 2 && word_fonts[..word_fonts.len() - 1].iter().any(|f| *f == 1) {
+        acc.count("space_glue_from_second_font");
+    }
+    if word_fonts.windows(2).any(|w| w[0] != w[1]) {
+        acc.count("font_switch_between_words");
+    }
+    for (n, name) in [(2usize, "text_with_2_byte_character"), (3, "text_with_3_byte_character"), (4, "text_with_4_byte_character")] {
+        if words.words.iter().any(|w| w.chars().any(|c| c.len_utf8() == n)) {
+            acc.count(name);
+        }
+    }
+    if words.words.iter().any(|w| w.contains('\u{ff}')) && words.words.iter().any(|w| w.contains('\u{100}')) {
+        acc.count("characters_255_and_256");
+    }
+    if s.ss.is_zero_glue() && (s.ss.st_o != 0 || s.ss.sh_o != 0) {
+        acc.count("zero_glue_parameter_with_infinite_order");
+    }
     // a trailing space token gives glue that §816 removes again: both forms are the same paragraph.
     // A space before the first word gives glue in horizontal mode and nothing when it is what
     // starts the paragraph (vertical mode, §1090): the statement speaks of inter-word glue only,
@@ -243,7 +352,7 @@ fn check_hlist(idx: u64, res: &Res, text: &str, skip_idx: usize, acc: &mut Acc) 
         words.leading = false;
         acc.class("note: no glue for a space before the first word");
     }
-    let (want, sfs) = match para::text_glues(&words, code, &res.font_space, &s.ss, &s.xs, SfSwitches::default(), impl_trailing) {
+    let (want, sfs) = match para::text_glues_fonts(&words, code, &font_of_word, &s.ss, &s.xs, SfSwitches::default(), impl_trailing) {
         Ok(x) => x,
         Err(()) => {
             acc.skipped += 1;
@@ -288,6 +397,11 @@ fn check_hlist(idx: u64, res: &Res, text: &str, skip_idx: usize, acc: &mut Acc) 
     if !s.xs.is_zero_glue() && sfs.iter().any(|f| *f == 2000) {
         acc.count("xspaceskip_with_sf_exactly_2000");
     }
+    for (v, name) in [(1i64, "space_after_sf_1"), (1001, "space_after_sf_1001"), (1999, "space_after_sf_1999"), (2001, "space_after_sf_2001"), (32767, "space_after_sf_32767")] {
+        if sfs.iter().any(|f| *f == v) {
+            acc.count(name);
+        }
+    }
     if s.xs.is_zero_glue() && sfs.iter().any(|f| *f >= 2000) {
         acc.count("extra_space_added");
     }
@@ -316,14 +430,16 @@ fn check_hlist(idx: u64, res: &Res, text: &str, skip_idx: usize, acc: &mut Acc) 
         want_words.push(String::new());
     }
     let got_words = para::word_spellings(&items);
-    if got_words != want_words {
+    let in_font = |w: &String| -> String { w.chars().filter(|c| (*c as u32) < 128).collect() };
+    let lenient_ok = lenient && got_words == want_words.iter().map(in_font).collect::<Vec<_>>();
+    if got_words != want_words && !lenient_ok {
         acc.class("FAIL hlist does not spell the words");
         acc.fail(idx, case(), format!("{want_words:?}"), format!("{got_words:?}  list: {}", para::show_list(&items)), "the horizontal list does not spell the input words between its glue items");
         return;
     }
     let got = glues_of(&items);
     if got != want {
-        let d10b = para::text_glues(&words, code, &res.font_space, &s.ss, &s.xs, SfSwitches { scale_spaceskip: false }, impl_trailing).map(|x| x.0 == got).unwrap_or(false);
+        let d10b = para::text_glues_fonts(&words, code, &font_of_word, &s.ss, &s.xs, SfSwitches { scale_spaceskip: false }, impl_trailing).map(|x| x.0 == got).unwrap_or(false);
         let i = got.iter().zip(want.iter()).position(|(a, b)| a != b).unwrap_or(got.len().min(want.len()));
         let class = if d10b { "D10b: \\spaceskip is not adjusted by the space factor (TeX §1043-1044)" } else { "inter-word glue differs from TeX §1041-1044" };
         acc.class(&format!("FAIL {class}"));
@@ -397,7 +513,7 @@ fn show_lines(lines: &[Vec<Item>]) -> String {
 }
 
 #[allow(clippy::too_many_arguments)]
-fn check_para<F: FontRepo>(idx: u64, acc: &mut Acc, case: &dyn Fn() -> Value, list0: &[H], fr: &F, hy: &dyn boxworks::Hyphenator, hyph_on: bool, kps: &KpSet, widths: &[Scaled], indents: &[Scaled], want_spelling: Option<&str>) {
+fn check_para<F: FontRepo>(idx: u64, acc: &mut Acc, case: &dyn Fn() -> Value, list0: &[H], fr: &F, hy: &dyn boxworks::Hyphenator, hyph_on: bool, kps: &KpSet, widths: &[Scaled], indents: &[Scaled], want_spelling: Option<&[String]>) {
     acc.eval();
     let p = &kps.p;
     let br = match catch(|| run_breaker(list0, fr, hy, p, widths, indents)) {
@@ -420,9 +536,9 @@ fn check_para<F: FontRepo>(idx: u64, acc: &mut Acc, case: &dyn Fn() -> Value, li
     }
     if let Some(w) = want_spelling {
         let got = para::spelling(&hl);
-        if got != w {
+        if !w.iter().any(|x| *x == got) {
             acc.class("FAIL the list that was broken does not spell the words");
-            acc.fail(idx, case(), w, format!("{got}  list: {}", para::show_list(&hl)), "the list that was broken (discretionaries not taken) does not spell the input words");
+            acc.fail(idx, case(), w.join(" or "), format!("{got}  list: {}", para::show_list(&hl)), "the list that was broken (discretionaries not taken) does not spell the input words");
             return;
         }
     }
@@ -506,6 +622,24 @@ fn check_para<F: FontRepo>(idx: u64, acc: &mut Acc, case: &dyn Fn() -> Value, li
         if l.penalty_sum == Some(0) && (pp.club_penalty != 0 || pp.inter_line_penalty != 0) {
             acc.count("penalty_sum_zero_no_node");
         }
+        if l.penalty_sum.map(|p| p < 0).unwrap_or(false) {
+            acc.count("penalty_sum_negative");
+        }
+        if l.penalty_sum == Some(1) {
+            acc.count("penalty_sum_plus_one");
+        }
+        if l.penalty_sum == Some(-1) {
+            acc.count("penalty_sum_minus_one");
+        }
+        if l.disc_break && l.replaced >= 2 {
+            acc.count("break_at_discretionary_replacing_two_items");
+        }
+        if l.packed.total_stretch[1] == 0 && pp.left_skip.st_o == 1 && pp.left_skip.st != 0 {
+            acc.count("fil_stretch_of_the_skips_cancels");
+        }
+        if k + 1 == model.len() && l.items.len() == 1 + usize::from(!pp.left_skip.is_zero_glue()) {
+            acc.count("last_line_holds_only_the_skips");
+        }
         if l.prune_stopped_at_break {
             acc.count("prune_stopped_at_next_break");
         }
@@ -521,6 +655,30 @@ fn check_para<F: FontRepo>(idx: u64, acc: &mut Acc, case: &dyn Fn() -> Value, li
     }
     if nl >= 4 {
         acc.count("four_or_more_lines");
+    }
+    if hl.len() == 2 {
+        acc.count("empty_input_list");
+    }
+    if hl.len() > 2 && hl[..hl.len() - 2].iter().all(|i| i.discardable()) {
+        acc.count("input_list_of_discardables_only");
+    }
+    if hl.first().map(|i| i.discardable()).unwrap_or(false) && hl.len() > 2 {
+        acc.count("input_list_begins_with_discardable");
+    }
+    if hl.iter().any(|i| matches!(i, Item::Glue(g) if g.is_zero_glue())) {
+        acc.count("zero_glue_item_in_list");
+    }
+    if o2 && br.breaks.iter().any(|b| matches!(hl.get(*b), Some(Item::Kern { w: 0, .. }))) {
+        acc.count("break_at_zero_width_kern");
+    }
+    if pp.left_skip.is_zero_glue() && (pp.left_skip.st_o != 0 || pp.left_skip.sh_o != 0) {
+        acc.count("zero_glue_parameter_with_infinite_order");
+    }
+    if pp.widths.iter().any(|w| *w == 0) {
+        acc.count("line_width_zero");
+    }
+    if pp.widths.iter().any(|w| *w == (1 << 30) - 1) {
+        acc.count("line_width_max_dimen");
     }
     // Oracle 2 and oracle 3 are judged independently; a case fails if either does.
     let mut problems: Vec<(String, String, String)> = vec![];
@@ -595,11 +753,19 @@ fn check_para<F: FontRepo>(idx: u64, acc: &mut Acc, case: &dyn Fn() -> Value, li
 
 struct Geom {
     name: &'static str,
+    /// sp
     widths: Vec<i32>,
     indents: Vec<i32>,
 }
 fn geoms() -> Vec<Geom> {
-    let g = |name, w: &[i32], i: &[i32]| Geom { name, widths: w.to_vec(), indents: i.to_vec() };
+    let g = |name, w: &[i32], i: &[i32]| Geom { name, widths: w.iter().map(|x| x * PT).collect(), indents: i.iter().map(|x| x * PT).collect() };
+    let mut v = geoms_pt(&g);
+    // both ends of the dimension range
+    v.push(Geom { name: "0pt", widths: vec![0], indents: vec![] });
+    v.push(Geom { name: "16383.99998pt (max_dimen) indent -16383.99998pt", widths: vec![(1 << 30) - 1], indents: vec![-((1 << 30) - 1)] });
+    v
+}
+fn geoms_pt(g: &dyn Fn(&'static str, &[i32], &[i32]) -> Geom) -> Vec<Geom> {
     vec![
         g("36pt", &[36], &[]),
         g("90pt", &[90], &[]),
@@ -644,6 +810,19 @@ fn tweaks() -> Vec<Tweak> {
         Tweak { name: "hyphenpenalty=-2000", group: 12, f: |p, _| p.hyphen_penalty = -2000 },
         Tweak { name: "exhyphenpenalty=-2000", group: 13, f: |p, _| p.ex_hyphen_penalty = -2000 },
         Tweak { name: "emergencystretch=20pt", group: 14, f: |p, _| p.emergency_stretch = Scaled(20 * PT) },
+        // orders other than fil, totals that cancel, a zero glue with infinite orders, sums of -1 and +1
+        Tweak { name: "rightskip=0pt plus 1filll", group: 1, f: |p, _| p.right_skip = Glue { stretch: Scaled(PT), stretch_order: GlueOrder::Filll, ..Default::default() } },
+        Tweak {
+            name: "leftskip=0pt plus 1fil rightskip=0pt plus -1fil",
+            group: 0,
+            f: |p, _| {
+                p.left_skip = Glue { stretch: Scaled(PT), stretch_order: GlueOrder::Fil, ..Default::default() };
+                p.right_skip = Glue { stretch: Scaled(-PT), stretch_order: GlueOrder::Fil, ..Default::default() };
+            },
+        },
+        Tweak { name: "leftskip=0pt plus 0fil minus 0fill (is zero_glue)", group: 0, f: |p, _| p.left_skip = Glue { stretch_order: GlueOrder::Fil, shrink_order: GlueOrder::Fill, ..Default::default() } },
+        Tweak { name: "interlinepenalty=-151", group: 8, f: |p, _| p.inter_line_penalty = -151 },
+        Tweak { name: "interlinepenalty=-149", group: 8, f: |p, _| p.inter_line_penalty = -149 },
     ]
 }
 
@@ -695,11 +874,17 @@ fn check_text_para(idx: u64, res: &Res, text: &str, geom: usize, tweak_sel: &[us
             return;
         }
     };
-    let widths: Vec<Scaled> = g.widths.iter().map(|w| Scaled(w * PT)).collect();
-    let indents: Vec<Scaled> = g.indents.iter().map(|w| Scaled(w * PT)).collect();
+    let widths: Vec<Scaled> = g.widths.iter().map(|w| Scaled(*w)).collect();
+    let indents: Vec<Scaled> = g.indents.iter().map(|w| Scaled(*w)).collect();
     let spelled: String = text.split(' ').collect();
+    // characters that are not in the font are outside the quantifier: kept (texcraft) or dropped (TeX)
+    let mut spelled = vec![spelled];
+    if spelled[0].chars().any(|c| c as u32 >= 128) {
+        let f: String = spelled[0].chars().filter(|c| (*c as u32) < 128).collect();
+        spelled.push(f);
+    }
     let hy: &dyn boxworks::Hyphenator = if hyph_on { &res.hyph } else { &NoHyph };
-    check_para(idx, acc, &case, &list0, &res.fonts, hy, hyph_on, &KpSet { p }, &widths, &indents, Some(&spelled));
+    check_para(idx, acc, &case, &list0, &res.fonts, hy, hyph_on, &KpSet { p }, &widths, &indents, Some(&spelled[..]));
 }
 
 // --------------------------------------------------------------------------------- hand-built lists
@@ -749,10 +934,26 @@ fn slot_menu() -> Vec<(&'static str, Vec<H>)> {
         ("pen-10000 pen-10000", vec![hpen(-10000), hpen(-10000)]),
         ("glue pen-10000", vec![hglue(2, 1, 1), hpen(-10000)]),
         ("pen-10000 glue", vec![hpen(-10000), hglue(2, 1, 1)]),
+        // zero-valued items, a second replaced item, both sides of the infinite penalties
+        ("glue(0)", vec![hglue(0, 0, 0)]),
+        ("kern!(0) glue", vec![hkern(0, Explicit), hglue(2, 1, 1)]),
+        ("disc(-|b|2) c c", vec![hdisc("-", "b", 2), hch('c'), hch('c')]),
+        ("pen9999", vec![hpen(9999)]),
+        ("pen-10001 pen10001", vec![hpen(-10001), hpen(10001)]),
     ]
 }
+fn head_menu() -> Vec<(&'static str, Vec<H>)> {
+    vec![("", vec![]), ("glue", vec![hglue(2, 1, 1)]), ("pen-10000", vec![hpen(-10000)])]
+}
 fn tail_menu() -> Vec<(&'static str, Vec<H>)> {
-    vec![("", vec![]), ("glue", vec![hglue(2, 1, 1)]), ("pen-10000", vec![hpen(-10000)]), ("glue glue", vec![hglue(2, 1, 1), hglue(1, 1, 0)])]
+    vec![
+        ("", vec![]),
+        ("glue", vec![hglue(2, 1, 1)]),
+        ("pen-10000", vec![hpen(-10000)]),
+        ("glue glue", vec![hglue(2, 1, 1), hglue(1, 1, 0)]),
+        ("disc(-||0)", vec![hdisc("-", "", 0)]),
+        ("kern! glue glue glue", vec![hkern(1, ds::KernKind::Explicit), hglue(2, 1, 1), hglue(1, 1, 0), hglue(0, 0, 0)]),
+    ]
 }
 const HAND_WIDTHS: [&[i32]; 4] = [&[9], &[12], &[7, 12], &[12, 7]];
 const HAND_TOLS: [i32; 2] = [200, 10000];
@@ -775,16 +976,24 @@ fn hand_params(pv: u64, tol: i32) -> kp::Params {
             p.hyphen_penalty = -100;
             p.ex_hyphen_penalty = -100;
         }
+        4 => {
+            // sums of -1, 0 and +1: first line 7-8, first of two lines 7+1-8, broken middle line 1-8+8…
+            p.inter_line_penalty = -8;
+            p.club_penalty = 7;
+            p.final_widow_penalty = 1;
+            p.broken_penalty = 9;
+        }
         _ => {}
     }
     p
 }
-const HAND_PVS: u64 = 4;
+const HAND_PVS: u64 = 5;
 
-fn check_hand(idx: u64, slots: &[u64], boxes: &[u64], tail: u64, wsel: u64, tsel: u64, pv: u64, acc: &mut Acc) {
+#[allow(clippy::too_many_arguments)]
+fn check_hand(idx: u64, head: u64, slots: &[u64], boxes: &[u64], tail: u64, wsel: u64, tsel: u64, pv: u64, acc: &mut Acc) {
     let menu = slot_menu();
     let tails = tail_menu();
-    let mut list: Vec<H> = vec![];
+    let mut list: Vec<H> = head_menu()[head as usize].1.clone();
     for (k, b) in boxes.iter().enumerate() {
         list.push(hch(if *b == 0 { 'a' } else { 'b' }));
         if k + 1 < boxes.len() {
@@ -796,7 +1005,7 @@ fn check_hand(idx: u64, slots: &[u64], boxes: &[u64], tail: u64, wsel: u64, tsel
     let indents: Vec<Scaled> = if pv == 1 { vec![Scaled(2 * PT), Scaled::ZERO] } else { vec![] };
     let p = hand_params(pv, HAND_TOLS[tsel as usize]);
     let case = || {
-        json!({"kind": "hand", "slots": slots, "boxes": boxes, "tail": tail, "widths": wsel, "tol": tsel, "pv": pv,
+        json!({"kind": "hand", "head": head, "slots": slots, "boxes": boxes, "tail": tail, "widths": wsel, "tol": tsel, "pv": pv,
         "list": para::show_list(&conv_list(&list, &Toy)), "line_widths_pt": HAND_WIDTHS[wsel as usize], "tolerance": HAND_TOLS[tsel as usize]})
     };
     // collision counter from the case: a legal breakpoint directly followed by a discardable item
@@ -816,6 +1025,75 @@ fn check_hand(idx: u64, slots: &[u64], boxes: &[u64], tail: u64, wsel: u64, tsel
     }
     check_para(idx, acc, &case, &list, &Toy, &NoHyph, false, &KpSet { p }, &widths, &indents, None);
 }
+
+/// Degenerate lists: every list of 0..=3 items over a six-item alphabet (incl. the empty list, lists
+/// of discardables only, a list that is one discretionary).
+fn deg_alphabet() -> Vec<(&'static str, H)> {
+    vec![("a", hch('a')), ("glue", hglue(2, 1, 1)), ("pen-10000", hpen(-10000)), ("pen0", hpen(0)), ("kern!", hkern(1, ds::KernKind::Explicit)), ("disc(-|c|0)", hdisc("-", "c", 0))]
+}
+fn check_deg(idx: u64, sel: &[u64], wsel: u64, tsel: u64, pv: u64, acc: &mut Acc) {
+    let al = deg_alphabet();
+    let list: Vec<H> = sel.iter().map(|j| al[*j as usize].1.clone()).collect();
+    let widths: Vec<Scaled> = HAND_WIDTHS[wsel as usize].iter().map(|w| Scaled(w * PT)).collect();
+    let indents: Vec<Scaled> = if pv == 1 { vec![Scaled(2 * PT), Scaled::ZERO] } else { vec![] };
+    let p = hand_params(pv, HAND_TOLS[tsel as usize]);
+    let case = || json!({"kind": "deg", "items": sel, "widths": wsel, "tol": tsel, "pv": pv, "list": para::show_list(&conv_list(&list, &Toy))});
+    check_para(idx, acc, &case, &list, &Toy, &NoHyph, false, &KpSet { p }, &widths, &indents, None);
+}
+
+const VOCAB2: [&str; 6] = ["a", "AV", "end.", "fi", "it:", "--"];
+/// Two fonts in one paragraph (no hyphenation: the hyphenator is tied to one font, documented TODO).
+fn check_fonts_para(idx: u64, res: &Res, words: &[&str], fonts: &[u32], skip_idx: usize, geom: usize, acc: &mut Acc) {
+    let sets = skip_sets();
+    let s = &sets[skip_idx];
+    let gs = geoms();
+    let g = &gs[geom];
+    let case = || json!({"kind": "text2", "words": words, "fonts": fonts, "skips": skip_idx, "skips_name": s.name, "geom": geom, "geom_name": g.name});
+    let list0 = match catch(|| make_hlist_fonts(res, s, words, fonts)) {
+        Ok(l) => l,
+        Err(pn) => {
+            acc.eval();
+            acc.fail(idx, case(), "a horizontal list", pn.describe(), "add_word / add_space panicked");
+            return;
+        }
+    };
+    let widths: Vec<Scaled> = g.widths.iter().map(|w| Scaled(*w)).collect();
+    let indents: Vec<Scaled> = g.indents.iter().map(|w| Scaled(*w)).collect();
+    let spelled = vec![words.concat()];
+    if list0.iter().any(|h| matches!(h, H::Char(c) if c.font == 1)) && list0.iter().any(|h| matches!(h, H::Char(c) if c.font == 0)) {
+        acc.count("paragraph_with_characters_of_two_fonts");
+    }
+    check_para(idx, acc, &case, &list0, &res.fonts2, &NoHyph, false, &KpSet { p: kp::Params::plain_tex_defaults() }, &widths, &indents, Some(&spelled[..]));
+}
+/// (words, fonts) of the idx-th two-font case: word sequences of 1..=3 over VOCAB2, shortest first, each with every font assignment.
+fn nth_fonts_case(mut idx: u64) -> (Vec<&'static str>, Vec<u32>) {
+    let k = VOCAB2.len() as u64;
+    let mut len = 1u32;
+    loop {
+        let n = k.pow(len) * 2u64.pow(len);
+        if idx < n {
+            break;
+        }
+        idx -= n;
+        len += 1;
+    }
+    let fbits = idx % 2u64.pow(len);
+    let mut w = idx / 2u64.pow(len);
+    let mut words = vec![];
+    for _ in 0..len {
+        words.push(VOCAB2[(w % k) as usize]);
+        w /= k;
+    }
+    words.reverse();
+    let fonts = (0..len).map(|b| ((fbits >> b) & 1) as u32).collect();
+    (words, fonts)
+}
+fn count_fonts_cases(maxlen: u32) -> u64 {
+    (1..=maxlen).map(|l| (VOCAB2.len() as u64).pow(l) * 2u64.pow(l)).sum()
+}
+
+/// Words with characters outside ASCII: 2-, 3- and 4-byte UTF-8, codes 233, 255 (last table entry) and 256.
+const VOCAB3: [&str; 6] = ["\u{e9}", "\u{100}.", "a\u{20ac}", "\u{1f600},", "\u{ff}", "a"];
 
 // ------------------------------------------------------------------------ model self-validation
 
@@ -1116,9 +1394,9 @@ fn main() {
     let res = &res;
     // F1: text -> hlist
     {
-        let maxw = ctx.pick(3u32, 5u32);
+        let maxw = ctx.pick(3u32, 4u32);
         let nw = count_words(maxw);
-        let nsk = skip_sets().len() as u64;
+        let nsk = 12u64; // skip sets 0..=11 (the two "wide" tables belong to the non-ASCII family)
         let n = nw * SPACINGS * nsk;
         ctx.family("hlist-text", &format!("every sequence of 1..={maxw} words over {VOCAB:?} x {SPACINGS} spacings (single, leading, trailing, double, all) x {nsk} settings of \\spaceskip/\\xspaceskip/\\sfcode"), n, |i, acc| {
             let d = vcore::digits(i, &[nw, SPACINGS, nsk]);
@@ -1159,33 +1437,124 @@ fn main() {
         } else {
             run(&mut ctx, "para-text-pairs", 1, 3, settings(true), &format!("defaults, each of {nt} single changes, every pair of changes to different parameters"));
             run(&mut ctx, "para-text-4", 4, 4, settings(false), &format!("defaults and each of {nt} single changes"));
-            run(&mut ctx, "para-text-5", 5, 5, vec![vec![], vec![18]], "defaults, hyphenpenalty=-2000");
+            run(&mut ctx, "para-text-5", 5, 5, vec![vec![]], "defaults");
         }
     }
     // F3: hand-built lists
     {
         let nb = ctx.pick(3usize, 4usize);
+        let pats: Vec<Vec<u64>> = if nb == 3 { vec![vec![0, 0, 0], vec![0, 1, 0]] } else { vec![vec![0, 0, 0, 0], vec![0, 1, 0, 1]] };
         let m = slot_menu().len() as u64;
         let nt = tail_menu().len() as u64;
-        let mut rad: Vec<u64> = vec![m; nb - 1];
-        rad.extend(vec![2u64; nb]);
-        rad.extend([nt, HAND_WIDTHS.len() as u64, HAND_TOLS.len() as u64, HAND_PVS]);
+        let nh = head_menu().len() as u64;
+        let mut rad: Vec<u64> = vec![nh];
+        rad.extend(vec![m; nb - 1]);
+        rad.extend([pats.len() as u64, nt, HAND_WIDTHS.len() as u64, HAND_TOLS.len() as u64, HAND_PVS]);
         let n = vcore::product(&rad);
         let rad = &rad;
+        let pats = &pats;
         ctx.family(
             "para-handbuilt",
-            &format!("{nb} boxes from {{a,b}} with every choice of {m} inter-box fillers (incl. adjacent glue/penalty/kern, discretionaries with pre/post/replace material, forced breaks) x {nt} list tails x line widths {HAND_WIDTHS:?}pt x tolerance {HAND_TOLS:?} x {HAND_PVS} parameter sets, toy font a=5pt b=3pt c=2pt -=1pt"),
+            &format!("{nh} list heads (nothing, glue, forced break) x {nb} boxes ({pats:?}) with every choice of {m} inter-box fillers (incl. adjacent glue/penalty/kern, zero glue/kern, discretionaries with pre/post material replacing 0/1/2 items, penalties 9999/10000/10001/-10000/-10001) x {nt} list tails (incl. two and three glues, a discretionary) x line widths {HAND_WIDTHS:?}pt x tolerance {HAND_TOLS:?} x {HAND_PVS} parameter sets, toy font a=5pt b=3pt c=2pt -=1pt"),
             n,
             |i, acc| {
                 let d = vcore::digits(i, rad);
-                let (slots, rest) = d.split_at(nb - 1);
-                let (boxes, rest) = rest.split_at(nb);
-                check_hand(i, slots, boxes, rest[0], rest[1], rest[2], rest[3], acc);
+                let head = d[0];
+                let slots = &d[1..nb];
+                let rest = &d[nb..];
+                let boxes = &pats[rest[0] as usize];
+                check_hand(i, head, slots, boxes, rest[1], rest[2], rest[3], rest[4], acc);
                 if i % 100_003 == 17 {
-                    acc.sample(i, || json!({"slots": slots.iter().map(|s| slot_menu()[*s as usize].0).collect::<Vec<_>>(), "boxes": boxes, "tail": tail_menu()[rest[0] as usize].0, "widths_pt": HAND_WIDTHS[rest[1] as usize], "tolerance": HAND_TOLS[rest[2] as usize], "pv": rest[3]}));
+                    acc.sample(i, || json!({"head": head_menu()[head as usize].0, "slots": slots.iter().map(|s| slot_menu()[*s as usize].0).collect::<Vec<_>>(), "boxes": boxes, "tail": tail_menu()[rest[1] as usize].0, "widths_pt": HAND_WIDTHS[rest[2] as usize], "tolerance": HAND_TOLS[rest[3] as usize], "pv": rest[4]}));
                 }
             },
         );
+    }
+    // F4: degenerate lists
+    {
+        let k = deg_alphabet().len() as u64;
+        let nl = vcore::strings_upto(k, 3);
+        let rad = [nl, HAND_WIDTHS.len() as u64, HAND_TOLS.len() as u64, HAND_PVS];
+        ctx.family("para-degenerate", &format!("every list of 0..=3 items over {:?} x line widths x tolerance x {HAND_PVS} parameter sets", deg_alphabet().iter().map(|a| a.0).collect::<Vec<_>>()), vcore::product(&rad), |i, acc| {
+            let d = vcore::digits(i, &rad);
+            let sel = vcore::nth_string(k, d[0]);
+            check_deg(i, &sel, d[1], d[2], d[3], acc);
+            if i == 0 {
+                acc.sample(i, || json!({"list": "(empty)", "widths_pt": HAND_WIDTHS[d[1] as usize]}));
+            }
+        });
+    }
+    // F5: two fonts, driven through add_word / add_space / activate_font
+    {
+        let nc = count_fonts_cases(3);
+        let sk = [0u64, 1, 3, 10];
+        ctx.family("hlist-two-fonts", &format!("every sequence of 1..=3 words over {VOCAB2:?} x every assignment of font 0 (cmr10) / font 1 (cmss8) to the words x 4 skip settings; add_word/add_space/activate_font called directly"), nc * sk.len() as u64, |i, acc| {
+            let d = vcore::digits(i, &[nc, sk.len() as u64]);
+            let (words, fonts) = nth_fonts_case(d[0]);
+            check_hlist_fonts(i, res, &words, &fonts, sk[d[1] as usize] as usize, acc);
+            if i == 100 {
+                acc.sample(i, || json!({"words": words, "fonts": fonts}));
+            }
+        });
+        let sk = [0u64, 3];
+        let gm = [0u64, 1, 5];
+        ctx.family("para-two-fonts", "the same word/font sequences x 2 skip settings x 3 width/indent sequences, broken without hyphenation", nc * 6, |i, acc| {
+            let d = vcore::digits(i, &[nc, 2, 3]);
+            let (words, fonts) = nth_fonts_case(d[0]);
+            check_fonts_para(i, res, &words, &fonts, sk[d[1] as usize] as usize, gm[d[2] as usize] as usize, acc);
+        });
+    }
+    // F6: characters outside ASCII
+    {
+        let k = VOCAB3.len() as u64;
+        let nw = vcore::strings_upto(k, 3) - 1;
+        let sk = [0u64, 3, 12, 13];
+        let words_of = move |j: u64| -> Vec<&'static str> { vcore::nth_string(k, j + 1).into_iter().map(|x| VOCAB3[x as usize]).collect() };
+        ctx.family("hlist-text-wide", &format!("every sequence of 1..=3 words over {VOCAB3:?} (2-, 3-, 4-byte characters; codes 233, 255, 256) x 4 skip/sfcode settings"), nw * 4, |i, acc| {
+            let d = vcore::digits(i, &[nw, 4]);
+            let text = words_of(d[0]).join(" ");
+            check_hlist(i, res, &text, sk[d[1] as usize] as usize, acc);
+            if i == 40 {
+                acc.sample(i, || json!({"text": text}));
+            }
+        });
+        let gm = [0u64, 3, 1];
+        let st: [&[usize]; 3] = [&[], &[6], &[18]];
+        ctx.family("para-text-wide", "the same texts x widths 36pt/20pt/90pt x (defaults, spaceskip, hyphenpenalty=-2000) x hyphenation off/on", nw * 18, |i, acc| {
+            let d = vcore::digits(i, &[nw, 3, 3, 2]);
+            let text = words_of(d[0]).join(" ");
+            check_text_para(i, res, &text, gm[d[1] as usize] as usize, st[d[2] as usize], d[3] == 1, acc);
+        });
+    }
+    for (c, m) in [
+        ("space_after_sf_1", "a space follows a space factor of 1 (smallest positive sfcode)"),
+        ("space_after_sf_1001", "a space follows a space factor of 1001"),
+        ("space_after_sf_1999", "a space follows a space factor of 1999 (just below the >= 2000 tests)"),
+        ("space_after_sf_2001", "a space follows a space factor of 2001"),
+        ("space_after_sf_32767", "a space follows the largest space factor"),
+        ("zero_glue_parameter_with_infinite_order", "a glue parameter whose three dimensions are 0 but whose orders are not normal (still zero_glue)"),
+        ("space_glue_from_second_font", "a space is processed while font 1 is current"),
+        ("font_switch_between_words", "the current font changes between two words"),
+        ("paragraph_with_characters_of_two_fonts", "a broken paragraph holds characters of both fonts"),
+        ("text_with_2_byte_character", "text with a 2-byte UTF-8 character"),
+        ("text_with_3_byte_character", "text with a 3-byte UTF-8 character"),
+        ("text_with_4_byte_character", "text with a 4-byte UTF-8 character"),
+        ("characters_255_and_256", "text with the characters 255 (last sfcode entry) and 256 (first without one)"),
+        ("penalty_sum_negative", "the penalties of §890 add up to a negative value"),
+        ("penalty_sum_plus_one", "the penalties of §890 add up to +1"),
+        ("penalty_sum_minus_one", "the penalties of §890 add up to -1"),
+        ("break_at_discretionary_replacing_two_items", "a chosen break is a discretionary with replace count >= 2"),
+        ("fil_stretch_of_the_skips_cancels", "\\leftskip and \\rightskip have fil stretch that cancels to exactly zero in a line"),
+        ("last_line_holds_only_the_skips", "the last line holds nothing but the skips (everything after the last break was pruned)"),
+        ("empty_input_list", "the list to be broken is empty"),
+        ("input_list_of_discardables_only", "the list to be broken holds discardable items only"),
+        ("input_list_begins_with_discardable", "the list to be broken begins with a discardable item"),
+        ("zero_glue_item_in_list", "the list holds a glue item that is exactly zero"),
+        ("break_at_zero_width_kern", "a chosen break is an explicit kern of width 0"),
+        ("line_width_zero", "a requested line width of 0pt"),
+        ("line_width_max_dimen", "a requested line width of 2^30-1 sp"),
+    ] {
+        ctx.require(c, m);
     }
     ctx.require("spaceskip_with_sf_not_1000", "\\spaceskip is set and a space follows a space factor other than 1000 (and \\xspaceskip does not take over)");
     ctx.require("xspaceskip_with_sf_ge_2000", "\\xspaceskip is set and a space follows a space factor >= 2000");
@@ -1214,7 +1583,19 @@ fn replay(res: &Res, case: &Value, acc: &mut Acc) {
             let tw: Vec<usize> = arr(&case["tweaks"]).into_iter().map(|x| x as usize).collect();
             check_text_para(0, res, case["text"].as_str().unwrap_or(""), case["geom"].as_u64().unwrap_or(0) as usize, &tw, case["hyph"].as_bool().unwrap_or(false), acc)
         }
-        Some("hand") => check_hand(0, &arr(&case["slots"]), &arr(&case["boxes"]), case["tail"].as_u64().unwrap_or(0), case["widths"].as_u64().unwrap_or(0), case["tol"].as_u64().unwrap_or(0), case["pv"].as_u64().unwrap_or(0), acc),
+        Some("hlist2") | Some("text2") => {
+            let words: Vec<String> = case["words"].as_array().map(|a| a.iter().filter_map(|x| x.as_str().map(|s| s.to_string())).collect()).unwrap_or_default();
+            let words: Vec<&str> = words.iter().map(|s| s.as_str()).collect();
+            let fonts: Vec<u32> = arr(&case["fonts"]).into_iter().map(|x| x as u32).collect();
+            let sk = case["skips"].as_u64().unwrap_or(0) as usize;
+            if case["kind"] == "hlist2" {
+                check_hlist_fonts(0, res, &words, &fonts, sk, acc)
+            } else {
+                check_fonts_para(0, res, &words, &fonts, sk, case["geom"].as_u64().unwrap_or(0) as usize, acc)
+            }
+        }
+        Some("deg") => check_deg(0, &arr(&case["items"]), case["widths"].as_u64().unwrap_or(0), case["tol"].as_u64().unwrap_or(0), case["pv"].as_u64().unwrap_or(0), acc),
+        Some("hand") => check_hand(0, case["head"].as_u64().unwrap_or(0), &arr(&case["slots"]), &arr(&case["boxes"]), case["tail"].as_u64().unwrap_or(0), case["widths"].as_u64().unwrap_or(0), case["tol"].as_u64().unwrap_or(0), case["pv"].as_u64().unwrap_or(0), acc),
         _ => {
             eprintln!("replay: unknown case kind");
             std::process::exit(2);
